@@ -83,6 +83,9 @@ func Solve(workDir, name, query string, timeoutS int, solverTime *SolverStats) S
 	return SolveHint(workDir, name, query, timeoutS, solverTime, "")
 }
 
+// fastMode: development runs stop after the first solver stage.
+var fastMode bool
+
 var (
 	hintMu   sync.Mutex
 	hintWins = map[string]string{} // hint key -> "solver/variant" that won last time
@@ -200,7 +203,7 @@ func SolveHint(workDir, name, query string, timeoutS int, solverTime *SolverStat
 	if r, done := race(t1, s1); done {
 		return r
 	}
-	if timeoutS <= s1 {
+	if timeoutS <= s1 || fastMode {
 		return SolveResult{Status: "unknown", Solver: "portfolio"}
 	}
 	// stage 2: all solvers, all variants, full budget
